@@ -673,7 +673,8 @@ fn calculate_mcin_entries(positions: &ChunkPositions) -> McinChunk {
     for &(offset, size) in &positions.mcnk_entries {
         entries.push(McinEntry {
             offset: offset as u32,
-            size,
+            // MCIN size counts the whole chunk, including its 8-byte header
+            size: if offset == 0 { 0 } else { size + 8 },
             flags: 0,
             async_id: 0,
         });
